@@ -471,8 +471,19 @@ def run_multi_session(ctx: Ctx, versions: list[tuple[int, int]]) -> None:
         cli = sim.client(keepalive=1e5)
         for si, apiv in enumerate(versions):
             cfg.api_major, cfg.api_minor = apiv
-            c = sim.call("connect", lambda: cli.connect(login=False))
-            sim.run(until=lambda: c.done, max_time=sim.clock + 50)
+            # sessions are opened the way an application may: connect(), or the two steps start_connection() + finish_connection() that
+            # ReconnectLogic uses for every session; and they end by disconnect() or by the device going away
+            how = ("connect", "two-step", "two-step", "connect")[(si + len(versions)) % 4]
+            res.count(f"calls/multi-session/session-opened-by/{how}")
+            if how == "connect":
+                c = sim.call("connect", lambda: cli.connect(login=False))
+                sim.run(until=lambda: c.done, max_time=sim.clock + 50)
+            else:
+                c = sim.call("start", lambda: cli.start_connection())
+                sim.run(until=lambda: c.done, max_time=sim.clock + 50)
+                if c.outcome == "ok":
+                    c = sim.call("finish", lambda: cli.finish_connection(login=False))
+                    sim.run(until=lambda: c.done, max_time=sim.clock + 50)
             if c.outcome != "ok":
                 res.inconclusive.append(f"multi-session connect failed: {c.exc!r}")
                 return
@@ -500,8 +511,12 @@ def run_multi_session(ctx: Ctx, versions: list[tuple[int, int]]) -> None:
                 n0 = len(dev.conn.received)
                 getattr(cli, method)(77, **supplied)
                 judge(ctx, shim, n0, method, expq, supplied, {}, "multi-session", apiv, "plain")
-            d = sim.call("disconnect", lambda: cli.disconnect())
-            sim.run(until=lambda: d.done, max_time=sim.clock + 50)
+            if si % 3 == 1:
+                dev.conn.eof(0.0)         # the device reboots (firmware update): the session ends without disconnect() being called
+                sim.run_for(0.5)
+            else:
+                d = sim.call("disconnect", lambda: cli.disconnect())
+                sim.run(until=lambda: d.done, max_time=sim.clock + 50)
             sim.run_for(0.1)
 
 
